@@ -60,8 +60,9 @@ class Secp256k1PointEcdsa(IPoint):
                 BytesUtils.ToInteger(point_bytes[EcdsaKeysConst.POINT_COORD_BYTE_LEN:])
             )
         # The raw and uncompressed encodings are not checked by the library: the point shall lie on the curve
-        if not curve_secp256k1.contains_point(point_obj.x(), point_obj.y()):
-            raise ValueError("Invalid point key bytes (point not on the curve)")
+        if (point_obj.x() >= curve_secp256k1.p() or point_obj.y() >= curve_secp256k1.p()
+                or not curve_secp256k1.contains_point(point_obj.x(), point_obj.y())):
+            raise ValueError("Invalid point key bytes (point not on the curve or coordinates not reduced)")
         return cls(point_obj)
 
     @classmethod
